@@ -43,8 +43,13 @@ def frame_cases(run, n):
         nodes = pd.DataFrame({c: pd.Series(v, dtype=object) for c, v in cols.items()})
         m = rng.randint(0, 6)
         refs = pd.DataFrame({c: pd.Series([rng.choice(pool) for _ in range(m)], dtype=object) for c in ("Src", "Trg", "ReferenceType")})
+        relabelled = rng.random() < 0.35
+        if relabelled:
+            # tables whose row labels are not 0..n-1 (a filtered or concatenated table): ids belong to rows, not to labels
+            nodes.index = rng.sample(range(50, 500), len(ids))
+            refs.index = rng.sample(range(50, 500), m)
         orig_n, orig_r = nodes.copy(), refs.copy()
-        run.case({"frame": i, "nodes": len(ids), "refs": m}, nontrivial=len(set(pool)) > 1, tag="frame" + (":repeated-nodeid" if len(set(ids)) < len(ids) else ""))
+        run.case({"frame": i, "nodes": len(ids), "refs": m}, nontrivial=len(set(pool)) > 1, tag="frame" + (":repeated-nodeid" if len(set(ids)) < len(ids) else "") + (":relabelled" if relabelled else ""))
         run.compared += 1
         try:
             lk = normalize_wrt_nodeid(nodes, refs)
@@ -65,11 +70,11 @@ def frame_cases(run, n):
             except (TypeError, ValueError, IndexError):
                 return "<cell is not an id: %r>" % (i_,)
         for j in range(len(ids)):
-            if at(nodes["id"][j]) != orig_n["NodeId"][j]:
+            if at(nodes["id"].iloc[j]) != orig_n["NodeId"].iloc[j]:
                 problems.append("lookup[id] != NodeId")
             for c in ("ParentNodeId", "DataType", "MethodDeclarationId"):
                 if c in cols:
-                    was, now = orig_n[c][j], nodes[c][j]
+                    was, now = orig_n[c].iloc[j], nodes[c].iloc[j]
                     if was is pd.NA:
                         if not pd.isna(now):
                             problems.append("absent %s became an id" % c)
@@ -77,12 +82,43 @@ def frame_cases(run, n):
                         problems.append("%s does not denormalise to the original" % c)
         for j in range(m):
             for c in ("Src", "Trg", "ReferenceType"):
-                if at(refs[c][j]) != orig_r[c][j]:
+                if at(refs[c].iloc[j]) != orig_r[c].iloc[j]:
                     problems.append("reference column %s does not denormalise" % c)
         if problems:
             run.violation({"frame": {"nodes": {c: [str(x) for x in v] for c, v in cols.items()},
                                      "refs": [[str(x) for x in orig_r[c]] for c in ("Src", "Trg", "ReferenceType")]}},
                           {"what": "; ".join(sorted(set(problems)))})
+            return
+
+
+def lookup_df_cases(run, n):
+    """create_lookup_df on node tables that hold only some of the ids (one namespace's rows, a filtered graph):
+    reading the table by id gives that row's NodeId"""
+    import pandas as pd
+    from opcua_tools.nodeset_generator import create_lookup_df
+    from opcua_tools.ua_data_types import NodeIdType, UANodeId
+    rng = run.rng
+    for i in range(n):
+        k = rng.randint(1, 8)
+        ids = rng.sample(range(0, 40), k)
+        if rng.random() < 0.5:
+            ids = sorted(ids)
+        nids = [UANodeId(rng.choice([0, 1, 2]), NodeIdType.NUMERIC, str(1000 + j)) for j in range(k)]
+        nodes = pd.DataFrame({"id": ids, "NodeId": pd.Series(nids, dtype=object), "BrowseName": ["n%d" % j for j in range(k)]})
+        if rng.random() < 0.5:
+            nodes.index = rng.sample(range(100, 200), k)
+        run.case({"lookup_df": i, "ids": ids}, nontrivial=ids != list(range(k)), tag="lookup_df")
+        try:
+            lk = create_lookup_df(nodes)
+            got = {x: lk.loc[x, "uniques"] for x in ids}
+            extra = [x for x in lk.index.tolist() if x not in ids]
+        except Exception as e:  # noqa: BLE001
+            run.violation({"lookup_df": {"ids": ids}}, {"what": "create_lookup_df / reading it by id raised", "impl": type(e).__name__ + ": " + str(e)[:200]})
+            return
+        if any(got[x] != y for x, y in zip(ids, nids)) or extra:
+            run.violation({"lookup_df": {"ids": ids, "nodeids": [str(x) for x in nids]}},
+                          {"what": "create_lookup_df(nodes) read by id does not give each row's NodeId", "impl": {str(k_): str(v) for k_, v in got.items()}, "labels_without_a_node": extra[:5],
+                           "call": "opcua_tools.nodeset_generator.create_lookup_df"})
             return
 
 
@@ -140,6 +176,9 @@ def explore(run):
     rng = run.rng
     thorough = run.tier == "thorough"
     frame_cases(run, 5000 if thorough else 200)
+    if run.full():
+        return
+    lookup_df_cases(run, 3000 if thorough else 150)
     if run.full():
         return
     with minibase.Scratch() as sc:
